@@ -16,7 +16,7 @@ CHECKS["C01"] = {
  "technique": "bounded exhaustive exploration; user operations and schedule slots are z3 integer choices enumerated by solver-decided branching over the real engine; concrete replay"}
 CHECKS["C18"] = {
  "text": "Bounded symbolic verification (M1) of the real Runnable.run loop and NotificationManager: backoff parameters are z3 reals, every outcome "
-         "sequence of length 4 (6) over {did something, nothing happened, backoff(), Exception, BaseException} is enumerated by the solver, and each "
+         "sequence of length 4 (5) over {did something, nothing happened, backoff(), Exception, BaseException} is enumerated by the solver, and each "
          "requested sleep is proved equal to min(max, min*mult^(k-1)) by a nonlinear real validity query; stop point/finality and handler failures "
          "are solver choices. Cross-thread races of stop/wake/start are outside this technique and not claimed.",
  "technique": "bounded symbolic execution of Runnable.run with z3 reals for min/max/mult (QF_NRA validity per path), solver-enumerated outcome/stop/handler-failure choices; exact-fraction replay"}
